@@ -242,6 +242,43 @@ def run(ctx):
                                                    "between environments 'seed0' and '%s'" % name,
                                            "input": {"source": qsrc, "seed0": qmaps["seed0"], name: m}, "kf": None})
                     break
+        # ... what the process has imported before must not matter either: an accepted sub-module that is imported only inside the
+        # body of the function that uses it (the first evaluation in a fresh process meets it unloaded, the second one loaded), and a
+        # callable object of the module that is not a plain function (a functools.partial of an accepted function: its repr holds an
+        # address)
+        for ri, (files, entry_mod) in enumerate([
+                ({"__init__.py": "", "settings.py": "THRESHOLD = 3\n",
+                  "main.py": "import dds\n\ndef stage():\n    import %(pk)s.settings\n    return %(pk)s.settings.THRESHOLD * 2\n\n"
+                             "def f0():\n    return dds.keep('/c03/lazy', stage)\n"}, "main"),
+                ({"__init__.py": "",
+                  "main.py": "import dds\nimport functools\n\ndef scale(x, factor=1.0):\n    return x * factor\n\nhalve = functools.partial(scale, factor=0.5)\n\n"
+                             "def halved():\n    return halve(10)\n\ndef f0():\n    return dds.keep('/c03/half', halved)\n"}, "main")]):
+            pk = "c3r%d_%d" % (ri, os.getpid())
+            for d in (base, moved):
+                os.makedirs(os.path.join(d, pk), exist_ok=True)
+                for fn_, src_ in files.items():
+                    with open(os.path.join(d, pk, fn_), "w") as fh:
+                        fh.write(src_ % {"pk": pk} if "%(pk)s" in src_ else src_)
+            rmaps = {}
+            for v in variants:
+                wk = workers[v["name"]]
+                d = moved if v.get("moved") else base
+                for nth in ("", " (second evaluation in the process)"):
+                    sd = tempfile.mkdtemp(prefix="c3s_", dir=base)
+                    wk.call(cmd="store", kind=v.get("store", "memory"), internal_dir=sd + "/i", data_dir=sd + "/d")
+                    if not nth:
+                        wk.call(cmd="world", dir=d, module=pk + "." + entry_mod, extmod="c3e_fixed", accept=pk)
+                    r = wk.call(cmd="run", entry=entry)
+                    res.evaluations += 1
+                    rmaps[v["name"] + nth] = r["paths"] if r["error"] is None else {"REFUSED": [r["error"].get("kind"), r["error"].get("code") or r["error"].get("cls")]}
+            res.nontrivial("process history %d" % ri)
+            res.count("programs_sensitive_to_what_is_imported")
+            for name, m in rmaps.items():
+                if m != rmaps["seed0"]:
+                    res.violations.append({"what": "the answer of the analysis (signatures or refusal) differs between 'seed0' and '%s' for a program whose analysis "
+                                                   "could depend on what the process has imported / on addresses of objects" % name,
+                                           "input": {"files": dict((k_, v_ % {"pk": pk} if "%(pk)s" in v_ else v_) for k_, v_ in files.items()), "seed0": rmaps["seed0"], name: m}, "kf": None})
+                    break
         if ctx["driver_ok"]:
             ans = common.drv_batch(mreqs)
             for (w, ref, pinned, pin_name, extmod), a in zip(mmeta, ans):
